@@ -9,16 +9,17 @@ None == [none |-> TRUE]
 Fresh(stim) == [stim |-> stim, rejected |-> <<>>, built |-> FALSE, reqHead |-> None, srv |-> None, respHead |-> None, cli |-> None,
                 reqTr |-> 0, reqData |-> <<>>, respData |-> <<>>, respTrs |-> <<>>, respEnd |-> FALSE, rawSent |-> None, bodies |-> FALSE]
 Is(x) == "none" \notin DOMAIN x
-Keys == {"limit_hits", "runs", "inproc", "h2", "raw", "unary", "cstream", "sstream", "bidi", "handler_errors", "fail_before", "compressed_resp",
+Keys == {"mock", "limit_hits", "runs", "inproc", "h2", "raw", "unary", "cstream", "sstream", "bidi", "handler_errors", "fail_before", "compressed_resp",
          "compressed_req", "with_req_meta", "with_err_meta", "trailers_only", "refused"}
 Init == InitK(Fresh([mode |-> "none"]), Keys)
 
 ReqMeta == Accepted(s.stim.req.meta, s.rejected)
 ClientMode == s.stim.mode = "client"
+MockMode == s.stim.mode = "mock"
 Tapped == s.stim.mode = "raw" \/ s.stim.transport = "inproc"
 
 Reset == ResetK(Fresh(E.stim))
-         /\ Count({"runs", IF E.stim.mode = "raw" THEN "raw" ELSE E.stim.transport}
+         /\ Count({"runs", IF E.stim.mode = "raw" THEN "raw" ELSE IF E.stim.mode = "mock" THEN "mock" ELSE E.stim.transport}
                   \cup (IF E.stim.mode = "client" THEN {E.stim.shape} ELSE {})
                   \cup (IF E.stim.mode = "client" /\ ~E.stim.script.end.ok THEN {"handler_errors"} ELSE {})
                   \cup (IF E.stim.mode = "client" /\ E.stim.script.fail_before THEN {"fail_before"} ELSE {})
@@ -28,7 +29,7 @@ Reset == ResetK(Fresh(E.stim))
                   \cup (IF E.stim.mode = "client" /\ LimitHit(E.stim) THEN {"limit_hits"} ELSE {}))
 
 CliBuilt == /\ Live("cli_built") /\ UNCHANGED stats
-            /\ JudgeK(<< <<"HarnessOK", ClientMode>> >>, [s EXCEPT !.rejected = E.rejected, !.built = TRUE])
+            /\ JudgeK(<< <<"HarnessOK", ClientMode \/ MockMode>> >>, [s EXCEPT !.rejected = E.rejected, !.built = TRUE])
 ReqHead == /\ Live("req_head") /\ UNCHANGED stats
            /\ JudgeK(ReqHeadClauses(s.stim, E, ReqMeta) \o << <<"HarnessOK", s.built /\ ~Is(s.reqHead)>> >>, [s EXCEPT !.reqHead = E])
 FrameEv == /\ Live("frame")
@@ -53,7 +54,8 @@ SrvReq == /\ Live("srv_req") /\ UNCHANGED stats
 RespHead == /\ Live("resp_head") /\ UNCHANGED stats
             /\ JudgeK(<< <<"HarnessOK", ~Is(s.respHead)>> >>, [s EXCEPT !.respHead = E])
 Cli == /\ Live("cli") /\ UNCHANGED stats
-       /\ JudgeK((IF LimitHit(s.stim) THEN LimitClauses(s.stim, E, IF Is(s.srv) THEN s.srv.msgs ELSE <<>>, Is(s.srv))
+       /\ JudgeK((IF MockMode THEN MockClauses(s.stim, E)
+                  ELSE IF LimitHit(s.stim) THEN LimitClauses(s.stim, E, IF Is(s.srv) THEN s.srv.msgs ELSE <<>>, Is(s.srv))
                   ELSE IF EncRefused(s.stim)
                   THEN << <<"C05.UnsupportedRequestEncodingIsUnimplemented", ~E.ok /\ E.st.code = 12>> >>
                   ELSE ClientClauses(s.stim, E)) \o << <<"HarnessOK", ~Is(s.cli)>> >>, [s EXCEPT !.cli = E])
@@ -112,7 +114,7 @@ Bodies == /\ Live("bodies")
                    \cup (IF Tapped /\ E.resp.bytes = <<>> /\ s.respTrs = <<>> THEN {"trailers_only"} ELSE {}))
 End == EndK(<< <<"RunComplete", E.outcome = "ok" =>
                    /\ s.bodies
-                   /\ (ClientMode => Is(s.cli))
+                   /\ ((ClientMode \/ MockMode) => Is(s.cli))
                    /\ (Tapped => Is(s.respHead))
                    /\ ((ClientMode /\ Tapped) => Is(s.reqHead))>>,
                <<"C02.HandlerInvoked", (E.outcome = "ok" /\ ClientMode /\ ~EncRefused(s.stim) /\ ~LimitHit(s.stim)) => Is(s.srv)>> >>)
